@@ -71,13 +71,116 @@ def _used_get(V, st, self_val, args, kwargs, node):
     return SV(Seq(_PN), f(self_val.z, args[0].z))
 
 
+FAMILIES += [
+    Family('Grammar8', attrs={'_hashed': ANY}),
+    Family('CacheItem', attrs={'node': _PN}),
+    Family('UNFilter', fields={'_node_context': Obj('Ctx8'), '_parser_scope': _PN, '_parso_cache_node': Opt(Obj('CacheItem')),
+                               '_used_names': Obj('UsedNames'), 'parent_context': Obj('Ctx8')}),
+    Family('Ctx8', attrs={'tree_node': _PN},
+           methods={'get_root_context': FnSpec('Context.get_root_context', ret=Obj('ModCtx8'), pure=True, assumed=True)}),
+    Family('ModCtx8', attrs={'tree_node': _PN, 'inference_state': Obj('IS8')},
+           methods={'py__file__': FnSpec('ModuleContext.py__file__', ret=Opt(PATH), pure=True, assumed=True),
+                    'is_stub': FnSpec('ModuleContext.is_stub', ret=BOOL, pure=True, assumed=True)}),
+    Family('IS8', attrs={'grammar': Obj('Grammar8'), 'latest_grammar': Obj('Grammar8')}),
+]
+
 FAMILIES[0].methods['get'] = FnSpec('UsedNamesMapping.get', impl=_used_get, assumed=True,
                                     note='mapping spelling -> name leaves (the default () is the empty sequence)')
 
-CONTRACTS = [_scope_cache, _def_cache]
+_PARSER_CACHE = DictT(ANY, DictT(ANY, Obj('CacheItem')))
+
+
+def _replay_cache_node(inp):
+    from pyvc.replay import run_real
+    import types
+    from parso.cache import parser_cache
+    from jedi.parser_utils import get_parso_cache_node
+    g = types.SimpleNamespace(_hashed='pyvc-replay-grammar-%s' % inp.get('present'))
+    item = object()
+    parser_cache.pop(g._hashed, None)
+    if inp.get('present') == 'both':
+        parser_cache[g._hashed] = {'/p/a.py': item}
+    elif inp.get('present') == 'grammar-only':
+        parser_cache[g._hashed] = {}
+    try:
+        out = run_real(lambda: get_parso_cache_node(g, '/p/a.py'))
+        present = g._hashed in parser_cache and '/p/a.py' in parser_cache[g._hashed]
+        env = {'grammar': g, 'path': '/p/a.py', 'parser_cache': dict(parser_cache)}
+        return env, out
+    finally:
+        parser_cache.pop(g._hashed, None)
+
+
+_cache_node = Contract(
+    id='C08.get_parso_cache_node', prop='C08',
+    clause='the memo key of a module is exactly parso\'s cache entry for (grammar, path): KeyError iff there is none '
+           '(never None, never another entry)',
+    file='jedi/parser_utils.py', qualname='get_parso_cache_node',
+    params={'grammar': Obj('Grammar8'), 'path': ANY}, free={'parser_cache': _PARSER_CACHE},
+    families=['Grammar8', 'CacheItem'], ret=Obj('CacheItem'),
+    raises={'KeyError': 'not (grammar._hashed in parser_cache and path in parser_cache[grammar._hashed])'},
+    raises_iff=['KeyError'],
+    ensures=['result == parser_cache[grammar._hashed][path]'],
+    witness={}, replay=_replay_cache_node,
+    witness_library=[{'present': 'none'}, {'present': 'grammar-only'}, {'present': 'both'}],
+)
+
+def _replay_filter_init(inp):
+    """real Scripts on one path; the second one is parsed without parso's cache (settings.fast_parser = False)"""
+    from pyvc.replay import run_real
+    import tempfile
+    import shutil
+    import jedi
+    from jedi.inference.filters import ParserTreeFilter
+    d = tempfile.mkdtemp(prefix='c08_', dir='/var/tmp')
+    old = jedi.settings.fast_parser
+    try:
+        path = os.path.join(d, 'buf.py')
+        if inp['first_cached']:
+            jedi.settings.fast_parser = True
+            jedi.Script('def foo(): pass\nfoo\n', path=path).goto(2, 1)
+        jedi.settings.fast_parser = False
+        s = jedi.Script('x = 1\ndef foo(a): pass\nfoo\n', path=path)
+        ctx = s._get_module_context()
+        made = []
+        out = run_real(lambda: made.append(ParserTreeFilter(ctx)))
+        f = made[0] if made else None
+        env = {'coherent': f is None or f._parso_cache_node is None or f._parso_cache_node.node is ctx.tree_node}
+        return env, out
+    finally:
+        jedi.settings.fast_parser = old
+        shutil.rmtree(d, ignore_errors=True)
+
+
+_filter_init = Contract(
+    id='C08._AbstractUsedNamesFilter.__init__', prop='C08',
+    clause='a filter uses a parser-cache entry as memo key only if that entry holds the very tree the filter works '
+           'on (identity); buffers without path, trees parsed without parso\'s cache (settings.fast_parser = False) '
+           'and stale entries of another version bypass the memos - this establishes the precondition of '
+           '_get_definition_names / get_cached_parent_scope with used_names_of(c) := c.node.get_used_names()',
+    file='jedi/inference/filters.py', qualname='_AbstractUsedNamesFilter.__init__',
+    params={'self': Obj('UNFilter'), 'parent_context': Obj('Ctx8'), 'node_context': Opt(Obj('Ctx8'))},
+    families=['UNFilter', 'Ctx8', 'ModCtx8', 'IS8', 'Grammar8', 'CacheItem', 'PNode', 'UsedNames'],
+    ensures=[
+        'implies(self._parso_cache_node is not None, '
+        'self._parso_cache_node.node is self._node_context.get_root_context().tree_node)',
+        'self._used_names == self._node_context.get_root_context().tree_node.get_used_names()',
+        'implies(self._node_context.get_root_context().py__file__() is None, self._parso_cache_node is None)',
+        'self._node_context == (parent_context if node_context is None else node_context)',
+        'self.parent_context == parent_context',
+    ],
+    witness={}, replay=_replay_filter_init, witness_library=[{'first_cached': True}, {'first_cached': False}],
+    concrete_only=True, concrete_ensures=['coherent'],
+    allow_callee_exceptions=False,     # in particular the KeyError of get_parso_cache_node must not escape
+)
+
+CONTRACTS = [_scope_cache, _def_cache, _cache_node, _filter_init]
 
 
 def register(reg):
+    reg.names['get_parso_cache_node'] = FnSpec(
+        'get_parso_cache_node', params=[('grammar', Obj('Grammar8')), ('path', ANY)], ret=Obj('CacheItem'), pure=True,
+        raises=['KeyError'], assumed=False, note='C08.get_parso_cache_node')
     reg.names['used_names_of'] = FnSpec('used_names_of', params=[('cache_node', ANY)], ret=Obj('UsedNames'), pure=True,
                                         assumed=True, note='parso: the used-names mapping of the tree a cache node holds')
 
@@ -166,6 +269,34 @@ def structural_state(repo):
                 'label': 'the completion cache for modules named numpy/tensorflow/matplotlib/pandas is invalidated when '
                          'the module text changes',
                 'detail': 'process-global dict keyed by (module name, name); no invalidation found'})
+    # Script's own parse: the caller's cache options reach parso unchanged
+    pg = find_function(t2, 'InferenceState.parse_and_get_code') if t2 else None
+    okp = None
+    detail = ''
+    if pg is not None:
+        rets = [n for n in ast.walk(pg) if isinstance(n, ast.Return)]
+        calls = [n.value.elts[0] for n in rets if isinstance(n.value, ast.Tuple) and n.value.elts
+                 and isinstance(n.value.elts[0], ast.Call)]
+        kw_writes = [n for n in ast.walk(pg) if (isinstance(n, ast.Subscript) and isinstance(n.ctx, (ast.Store, ast.Del))
+                                                 and isinstance(n.value, ast.Name) and n.value.id == 'kwargs')
+                     or (isinstance(n, ast.Name) and n.id == 'kwargs' and isinstance(n.ctx, ast.Store))
+                     or (isinstance(n, ast.Call) and isinstance(n.func, ast.Attribute) and isinstance(n.func.value, ast.Name)
+                         and n.func.value.id == 'kwargs' and n.func.attr in inv.MUTATING_METHODS)]
+        okp = len(rets) == 1 and len(calls) == 1 and not kw_writes \
+            and {k.arg: ast.unparse(k.value) for k in calls[0].keywords} == \
+            {'code': 'code', 'path': 'path', 'file_io': 'file_io', None: 'kwargs'}
+        detail = 'kwargs writes at lines %r' % [getattr(n, 'lineno', 0) for n in kw_writes]
+    out.append({'id': 'parse-options-pass-through', 'kind': 'call-pre', 'ok': okp,
+                'label': 'parse_and_get_code hands the caller\'s parser-cache options (cache, diff_cache, cache_path) '
+                         'to parso unchanged: whether a tree is entered into parso\'s cache is decided by the caller '
+                         'alone (Script: diff_cache=settings.fast_parser)', 'detail': detail})
+    # process-global settings are only switched temporarily
+    sw = inv.temporary_global_switches(repo)
+    bad = [x for x in sw if not x[4]]
+    out.append({'id': 'settings-switches-restored', 'kind': 'frame', 'ok': not bad,
+                'label': 'every function that switches a jedi.settings attribute restores the saved value before every '
+                         'exit it writes down (a leaked switch changes the answers of all later Scripts of the process)',
+                'detail': 'sites: %r' % (sw,)})
     return out
 
 
